@@ -80,6 +80,7 @@ PROPS["C14"] = {
     "level": "exploration",
     "units": [
         {"name": "c14-push", "pkg": SECRETSTORE, "run": "TestVerifC14", "timeout": {"quick": 600, "thorough": 2400}},
+        {"name": "c14-concurrent-paths", "pkg": SECRETSTORE, "run": "TestVerifC14Concurrent", "timeout": {"quick": 600, "thorough": 2400}},
         {"name": "c14-service", "pkg": "pkg/outofstoremessage", "run": "TestVerifC14Service", "timeout": {"quick": 900, "thorough": 2400}},
     ],
 }
